@@ -459,7 +459,7 @@ class KafkaClient(object):
                     delay,
                 )
                 attempt += 1
-                yield task.deferLater(self.reactor, delay, lambda: None)
+                yield self._cancel_on_close(task.deferLater(self.reactor, delay, lambda: None))
 
             else:
                 log.debug("%r: load_topic_partitions -> %r", self, snapshot)
